@@ -123,7 +123,11 @@ func (h *dagHarness) offerTx(task string, t *world.CTx) *offer {
 		t.Tx = tx
 	}
 	o.Parsed = true
-	o.Err = n.State().Add(context.Background(), tx, t.Payload)
+	// the caller's context can be cancelled by the KV seam inside a write transaction (fault ctx.cancel-in-write-tx)
+	ctx, cancel := context.WithCancel(context.Background())
+	ctx = context.WithValue(ctx, seams.CancelKey{}, cancel)
+	o.Err = n.State().Add(ctx, tx, t.Payload)
+	cancel()
 	o.End = h.s.Steps
 	o.Crashed = n.Inc.Dead()
 	h.record(o)
